@@ -76,7 +76,10 @@ def styles_xml(numfmts, cellxfs, prefix="", decoys=False, gt=True, escape=0):
     for k, i in enumerate(cellxfs):
         attr = ' numFmtId="%s"' % i if i is not None else ""
         if k % 2:
-            out.append('<%sxf%s fontId="0" fillId="0" borderId="0" xfId="0" applyNumberFormat="1"/>' % (p, attr))
+            # the apply* flags only say whether the cell xf overrides its cellStyleXf in the UI: the
+            # numFmtId of the cell xf is the cell's format whatever the flag says (all spellings)
+            anf = ["1", "0", "true", "false", None][(k // 2) % 5]
+            out.append('<%sxf%s fontId="0" fillId="0" borderId="0" xfId="0"%s/>' % (p, attr, ' applyNumberFormat="%s"' % anf if anf else ""))
         else:
             out.append('<%sxf fontId="0"%s xfId="0"><%salignment horizontal="left"/></%sxf>' % (p, attr, p, p))
     out.append('</%scellXfs>' % p)
